@@ -96,7 +96,7 @@ theorem has_setPollCount {q : Q} {sid} (n : Nat) (h : Has q sid) : Has { q with 
 theorem addPoll_has {q c sid} (h : Has q sid) : Has (addPoll q c) sid := by
   unfold addPoll
   generalize (q.pollCount + 1) % W32 = n
-  have w := walk_pointwise { q with pollCount := n } incPollCount Same same_refl same_incPollCount c.cur
+  have w := walk_pointwise { q with pollCount := n } incPollCount Same same_refl same_incPollCount (addStart q c)
   exact has_pointwise w.1 w.2.1 (has_setPollCount n h)
 
 theorem removePoll_has {q c sid} (h : Has q sid) : Has (removePoll q c) sid := by
@@ -139,10 +139,9 @@ structure SysInv (A : Nat) (s : Sys) (hist : List (Nat × Nat × Nat)) : Prop wh
   q : Inv A s.q hist
   cur : ∀ n c, getC s.cs n = some c → CurOk s.q c ∧ CurHas s.q c
 
-/-- side conditions of the operations (see `AddGuard`): `AddPoll` is not applied to a cursor whose item has been recycled
-into the free list in the meantime; `RemovePoll` only undoes an earlier `AddPoll`. -/
+/-- side condition of the operations: `RemovePoll` only undoes an earlier `AddPoll` (the uint32 `pollCount` does not wrap below 0).
+(`AddPoll` needs none any more: since `fix: AddPoll re-validates the cursor` it does not walk from a recycled item.) -/
 def OpOk (s : Sys) : Op → Prop
-  | .add n => ∀ c, getC s.cs n = some c → AddGuard s.q c
   | .rm _ => 0 < s.q.pollCount
   | _ => True
 
@@ -150,26 +149,8 @@ def Guarded (s : Sys) : List Op → Prop
   | [] => True
   | op :: ops => OpOk s op ∧ Guarded (step s op).1 ops
 
-instance (q : Q) (c : Cursor) : Decidable (AddGuard q c) :=
-  match h : c.cur with
-  | none => isTrue (by intro sid hs; rw [h] at hs; cases hs)
-  | some sid => decidable_of_iff (∀ it ∈ q.free, it.sid ≠ sid)
-      ⟨fun hh s hs => by rw [h] at hs; cases hs; exact hh, fun hh => hh sid h⟩
-
-instance (s : Sys) (op : Op) : Decidable (OpOk s op) :=
-  match op with
-  | .add n =>
-    match h : getC s.cs n with
-    | none => isTrue (by intro c hc; rw [h] at hc; cases hc)
-    | some c => decidable_of_iff (AddGuard s.q c)
-        ⟨fun hh d hd => by rw [h] at hd; cases hd; exact hh, fun hh => hh c h⟩
-  | .rm _ => inferInstanceAs (Decidable (0 < s.q.pollCount))
-  | .push .. => isTrue trivial
-  | .cursor _ => isTrue trivial
-  | .pop _ => isTrue trivial
-  | .ack _ => isTrue trivial
-  | .head _ => isTrue trivial
-  | .search .. => isTrue trivial
+instance (s : Sys) (op : Op) : Decidable (OpOk s op) := by
+  cases op <;> unfold OpOk <;> exact inferInstance
 
 instance guardedDec : (s : Sys) → (ops : List Op) → Decidable (Guarded s ops)
   | _, [] => isTrue trivial
@@ -222,7 +203,7 @@ theorem step_inv {A s hist} (h : SysInv A s hist) (op : Op) (hok : OpOk s op) (h
     cases hg : getC s.cs n with
     | none => exact ⟨h.q.mono (Nat.le_succ _), h.cur⟩
     | some c =>
-      refine ⟨addPoll_inv h.q (hok c hg), ?_⟩
+      refine ⟨addPoll_inv h.q, ?_⟩
       intro m d hd
       obtain ⟨c1, c2⟩ := h.cur m d hd
       exact ⟨addPoll_curOk c1, fun sid hs => addPoll_has (c2 sid hs)⟩
